@@ -66,7 +66,7 @@ def extra(chk, thorough):
                         out = []
                         for e in evs:
                             if e == ("ack", -1):
-                                e = ("ack", r.proto._pack_seq)
+                                e = ("ack", r.cur_seq())
                             out.append(r.step(e))
                         nl = r.listeners()
                     finally:
@@ -96,7 +96,7 @@ def extra(chk, thorough):
                     out = []
                     for e in evs:
                         if e == ("ack", -1):
-                            e = ("ack", r.proto._pack_seq)
+                            e = ("ack", r.cur_seq())
                         out.append(r.step(e))
                     nl = r.listeners()
                 finally:
@@ -121,12 +121,12 @@ def extra(chk, thorough):
                 out = []
                 for e in evs:
                     if e == ("ack", -1):
-                        e = ("ack", r.proto._pack_seq)
+                        e = ("ack", r.cur_seq())
                     out.append(r.step(e))
                 after_first = [x for st in out for x in st if x.startswith("E:")]
                 for e in [("ack", -1)] * 3 + [("rsp", kind), ("tick", 6000)]:
                     if e == ("ack", -1):
-                        e = ("ack", r.proto._pack_seq)
+                        e = ("ack", r.cur_seq())
                     out.append(r.step(e))
                 nl = r.listeners()
                 ncb = r.callbacks
@@ -155,7 +155,7 @@ def extra(chk, thorough):
                 out = []
                 for e in list(pre) + evs:
                     if e == ("ack", -1):
-                        e = ("ack", r.proto._pack_seq)
+                        e = ("ack", r.cur_seq())
                     out.append(r.step(e))
                 nl = r.listeners()
             finally:
